@@ -353,19 +353,24 @@ def _od(pairs):
 def worker(ctx, job):
     deadline = time.time() + job["budget"]
     rng = ctx.rng
+    errs = []
     world = World()
     try:
         for i in range(job["n"]):
             if time.time() > deadline:
                 ctx.inconclusive_case("wall-clock watchdog")
                 break
-            one_case(ctx, world, rng, i, deadline)
+            try:
+                one_case(ctx, world, rng, i, deadline)
+            except (OSError, RuntimeError) as ex:      # the harness's own real sockets, never a verdict
+                errs.append("%s: %s" % (type(ex).__name__, ex))
     finally:
         world.close()
+    hg.tolerate_socket_errors(ctx, errs, job["n"])
 
 
 def run(ctx):
-    n = ctx.pick(60, 1200)
+    n = ctx.pick(50, 2400)
     jobs = [{"n": n, "budget": ctx.pick(25, 330)} for _ in range(16)]
     ctx.shard(jobs, timeout=ctx.pick(60, 400))
     total = 16 * n
